@@ -505,6 +505,42 @@ def trxcon_hostile(r):
 	return bytes(b)
 
 
+KINDS = ("RESET", "POWERON", "POWEROFF", "MEASURE 10", "H0 20", "SETSLOT 1 1", "SETTA 3", "H1 3 0 2 10 20")
+
+
+def trxcon_systematic(ctx, binary):
+	""" For every command trxcon can have pending: its well-formed response cut at every length (with and
+	    without the terminating NUL), with every separator dropped or doubled - each against a fresh instance. """
+	probe = "".join("N %d\nK %s\nc\n" % (i, k) for i, k in enumerate(KINDS)).encode()
+	rc, out, err = cbuild.run(binary, probe, twin = False)
+	cases = []
+	if rc != 0:
+		return cases	# the random cases report it
+	cur = None
+	for l in out.decode(errors = "replace").splitlines():
+		if l.startswith("CASE "):
+			cur = KINDS[int(l[5:])]
+		elif l.startswith("C ") and cur:
+			cmd = bytes.fromhex(l[2:]).rstrip(b"\0").decode(errors = "replace")
+			if not cmd.startswith("CMD "):
+				continue
+			p = cmd[4:].split(" ")
+			rsp = "RSP %s 0%s%s" % (p[0], "".join(" " + a for a in p[1:]), " -60" if p[0] == "MEASURE" else "")
+			forms = set()
+			for cut in range(len(rsp) + 1):
+				forms.add(rsp[:cut].encode())
+				forms.add(rsp[:cut].encode() + b"\0")
+			for k, ch in enumerate(rsp):
+				if ch == " ":
+					forms.add((rsp[:k] + rsp[k + 1:]).encode() + b"\0")
+					forms.add((rsp[:k] + "  " + rsp[k + 1:]).encode() + b"\0")
+			for f in sorted(forms):
+				cases.append(["K " + cur, "R " + (f.hex() or "-"), "t", "s"])
+				ctx.count("trxcon_systematic_responses")
+			cur = None
+	return cases
+
+
 def trxcon_side(ctx, r):
 	bd = cbuild.BuildDir("c14")
 	try:
@@ -514,8 +550,7 @@ def trxcon_side(ctx, r):
 			ops = []
 			pending = r.random() < 0.7
 			if pending:
-				ops.append("K " + r.choice(("RESET", "POWERON", "POWEROFF", "MEASURE 10", "H0 20", "SETSLOT 1 1", "SETTA 3",
-					"H1 3 0 2 10 20")))
+				ops.append("K " + r.choice(KINDS))
 			for _ in range(r.randint(5, 40)):
 				if r.random() < 0.6:
 					ops.append("R " + (trxcon_hostile(r).hex() or "-"))
@@ -531,8 +566,11 @@ def trxcon_side(ctx, r):
 					ops.append("t")
 			ops.append("s")
 			cases.append(ops)
+		cases += trxcon_systematic(ctx, binary)
 		scripts = [("N %d\n" % i + "\n".join(ops) + "\n").encode() for i, ops in enumerate(cases)]
-		outputs, crashes = cbuild.run_cases(binary, scripts, timeout = 900)
+		# (no MemorySanitizer twin here: what trxcon reports upwards after a hostile datagram is not part of
+		# the statement - only that it neither crashes nor touches memory out of bounds)
+		outputs, crashes = cbuild.run_cases(binary, scripts, timeout = 900, twin = False)
 		for (i, rc, err, rep) in crashes:
 			last = (outputs[i] or [])[-2:]
 			done = sum(1 for l in (outputs[i] or []) if l[:2] in ("r ", "d ", "k ", "t "))
@@ -563,14 +601,16 @@ def run(ctx):
 	r = ctx.rng("c14")
 	sim.ctrl_if_time_virtual()
 	for i in range(ctx.scale(700, 60000)):
-		session(ctx, r, i)
+		session(ctx, ctx.case_rng("session", i), i)
 		if ctx.too_many() or ctx.time_left() < 0:
 			break
+	ctx.current_case = None
 	parsers(ctx, r)
 	captures(ctx, r)
 	run_loop(ctx, r)
 	sim.restore_time()
 	trxcon_side(ctx, r)
+	ctx.require("trxcon_systematic_responses", 200)
 	ctx.require("sessions", 50)
 	ctx.require("probes_passed", 200)
 	ctx.require("ctrl:non-UTF-8", 50)
@@ -584,6 +624,8 @@ def run(ctx):
 
 
 def replay(ctx, data):
-	ctx.rule = "replay: sessions are regenerated from the seed; rerunning the check with the recorded seed"
+	if common.replay_case(ctx, data, {"session": session}):
+		return
+	ctx.rule = "replay: no case coordinates in the witness; rerunning the check with the recorded seed"
 	ctx.seed = data.get("seed", 0)
 	run(ctx)
